@@ -10,7 +10,7 @@
    C06_settles gives the continuation that reaches quiescence: together, once changes stop the run settles, up to date.
    KNOWN FINDING KF1: a change of a target's own declared input made while its script runs is absorbed by a skip; witness
    below, replayed on the real binary (defect D12). *)
-From Zinoma.Proofs Require Import SysWatch WatchKF1 SysWatchLive2 SysWatchLive3 SysWatchLive4 SysFresh Weights.
+From Zinoma.Proofs Require Import SysWatch WatchKF1 SysWatchLive2 SysWatchLive3 SysWatchLive4 SysFresh SysFreshAgg Weights.
 From Zinoma.Model Require Import Incremental.
 
 Theorem C06_invalidation_rearms_and_propagates :
@@ -156,6 +156,48 @@ Theorem C06_settled_run_saw_latest_dependency :
       ran_after (hist s) R x.
 Proof. exact settled_run_saw_latest_dependency. Qed.
 
+(* ... THROUGH AGGREGATES ("directly or through a dependency's rebuilt outputs", with aggregate targets — the usual way to group
+   dependencies — in between).  `quiet_path s R x`: R reaches the build x directly or through aggregate targets only, and along the
+   way no out-of-date notice from a child is waiting in its parent's inbox.  Then the run R stands on started after the last
+   success of x. *)
+Theorem C06_acknowledged_run_is_fresh_through_aggregates :
+  forall (g : graph) (roots : list tid) (w : bool) (rank : tid -> nat),
+    (forall t k deps d, g !! t = Some (k, deps) -> d ∈ deps -> is_Some (g !! d)) ->
+    (forall t k deps d, g !! t = Some (k, deps) -> d ∈ deps -> (rank d < rank t)%nat) ->
+    forall (s : sys) (R : tid) (aR : astate) (x : tid) (ax : astate),
+      reachable true w g roots s -> ph s = PRun ->
+      actors s !! R = Some aR -> a_kind aR <> AAggregate -> actors s !! x = Some ax -> a_kind ax = ABuild ->
+      clean aR -> quiet_path s R x -> ran_after (hist s) R x.
+Proof. exact acknowledged_run_is_fresh_through_aggregates. Qed.
+
+(* the path notion, spelled out: constructors of `quiet_path` *)
+Theorem C06_quiet_path_direct : forall s P aP x,
+  actors s !! P = Some aP -> x ∈ a_deps aP -> MInvalidated KB x ∉ inb (inbox s) P -> quiet_path s P x.
+Proof. exact qp_direct. Qed.
+Theorem C06_quiet_path_via : forall s P aP m am x,
+  actors s !! P = Some aP -> m ∈ a_deps aP -> actors s !! m = Some am -> a_kind am = AAggregate ->
+  MInvalidated KB m ∉ inb (inbox s) P -> quiet_path s m x -> quiet_path s P x.
+Proof. exact qp_via. Qed.
+
+(* ... and once the run has settled: every requested build or service ran last after the last success of EVERY build it reaches
+   directly or through aggregates (`agg_path`: the same paths, no condition on inboxes — they are empty) *)
+Theorem C06_settled_run_saw_latest_through_aggregates :
+  forall (g : graph) (roots : list tid) (w : bool) (rank : tid -> nat),
+    (forall t k deps d, g !! t = Some (k, deps) -> d ∈ deps -> is_Some (g !! d)) ->
+    (forall t k deps d, g !! t = Some (k, deps) -> d ∈ deps -> (rank d < rank t)%nat) ->
+    forall (s : sys) (R : tid) (aR : astate) (x : tid) (ax : astate),
+      reachable true w g roots s -> ph s = PRun -> quiescent true w s = true -> none_failed s ->
+      actors s !! R = Some aR -> a_kind aR <> AAggregate -> (forall k, own aR k -> reqs aR k <> ∅) ->
+      actors s !! x = Some ax -> a_kind ax = ABuild -> agg_path s R x ->
+      ran_after (hist s) R x.
+Proof. exact settled_run_saw_latest_through_aggregates. Qed.
+
+Theorem C06_agg_path_direct : forall s P aP x, actors s !! P = Some aP -> x ∈ a_deps aP -> agg_path s P x.
+Proof. exact ap_direct. Qed.
+Theorem C06_agg_path_via : forall s P aP m am x,
+  actors s !! P = Some aP -> m ∈ a_deps aP -> actors s !! m = Some am -> a_kind am = AAggregate -> agg_path s m x -> agg_path s P x.
+Proof. exact ap_via. Qed.
+
 Theorem C06_none_failedb_spec : forall s, none_failedb s = true -> none_failed s.
 Proof. exact none_failedb_spec. Qed.
 
@@ -173,6 +215,23 @@ Example C06_quiescent_after_change :
     (quiescent true true s && is_running s && none_failedb s &&
      bool_decide (hist s = [ObStart 1%N; ObSucc 1%N; ObStart 2%N; ObSucc 2%N; ObStart 1%N; ObSucc 1%N; ObStart 2%N; ObSucc 2%N])) = true.
 Proof. apply witness_intro. vm_compute. reflexivity. Qed.
+
+(* ... and with an aggregate in between: `2: [5]`, `5` an aggregate of `[1]`, watched; first run, then the input of 1 changes: 1 is
+   re-run, the aggregate passes the word on, 2 is re-run after 1 has succeeded; quiescent, nothing failed *)
+Example C06_quiescent_after_change_through_aggregate :
+  let g : graph := <[1%N := (ABuild, [])]> (<[5%N := (AAggregate, [1%N])]> (<[2%N := (ABuild, [5%N])]> ∅)) in
+  exists s,
+    run_labels true true (init_sys g [2%N])
+      [LDeliver 2%N true; LDeliver 5%N true; LDeliver 1%N true; LBuildDone 1%N RCompleted; LDeliver 5%N true;
+       LDeliver 1%N true; LDeliver 5%N true; LDeliver 5%N true; LDeliver 2%N true; LDeliver 2%N true; LDeliver 2%N true;
+       LBuildDone 2%N RCompleted; LRoot; LRoot;
+       LChange [1%N];
+       LInval 1%N true; LBuildDone 1%N RCompleted; LDeliver 5%N true; LDeliver 5%N true; LDeliver 2%N true;
+       LDeliver 2%N true; LBuildDone 2%N RCompleted; LRoot; LRoot] = Some s /\
+    (quiescent true true s && is_running s && none_failedb s &&
+     bool_decide (hist s = [ObStart 1%N; ObSucc 1%N; ObStart 2%N; ObSucc 2%N; ObStart 1%N; ObSucc 1%N; ObStart 2%N; ObSucc 2%N])) = true.
+Proof. apply witness_intro. vm_compute. reflexivity. Qed.
+
 
 (* THE REBUILD CASCADE IS FINITE (repaired handlers; watch mode and one-shot alike; every graph whose dependencies decrease a
    rank, i.e. every acyclic graph; every interleaving; script failures, spawn errors, signals included). Every execution makes
